@@ -7,10 +7,10 @@ model; the EQL engine that consumes it is the real one.
 """
 from __future__ import annotations
 
-from dataclasses import dataclass
+from dataclasses import dataclass, field
 from typing import Any, List, Optional
 
-from krrood.entity_query_language.predicate import Predicate, symbolic_function
+from krrood.entity_query_language.predicate import Predicate, Symbol, symbolic_function
 
 
 class FuseBlown(BaseException):
@@ -166,7 +166,32 @@ class A2(A):
     pass
 
 
-ITEM_TYPES = {"A": A, "B": B, "A2": A2}
+_LOGGED_FIELDS = ("a", "b", "xs", "ref")
+
+
+@dataclass(eq=False, repr=False)
+class PItem(Symbol):
+    """
+    A dataclass Symbol whose public fields log every read: the kind of object pattern matching
+    (entity_matching / match) needs - its fields must be known to the class diagram.
+    """
+
+    serial: int
+    a: int = 0
+    b: int = 0
+    xs: List[int] = field(default_factory=list)
+    ref: Optional["PItem"] = None
+
+    def __getattribute__(self, name):
+        if name in _LOGGED_FIELDS:
+            MON.emit("get", object.__getattribute__(self, "serial"), name)
+        return object.__getattribute__(self, name)
+
+    def __repr__(self):
+        return f"PItem#{object.__getattribute__(self, 'serial')}"
+
+
+ITEM_TYPES = {"A": A, "B": B, "A2": A2, "P": PItem}
 
 
 @dataclass(eq=False)
